@@ -90,7 +90,7 @@ def _lookup_job(recs):
                 if isinstance(v0, int):
                     variants += [(keys, float(v0)), ([float(k) for k in keys], v0)]
                 for ks, v in variants:
-                    ov = [(0, 0, i, k) for i, k in enumerate(ks)] + [(0, 4, 0, v)]
+                    ov = [(0, 0, i, k) for i, k in enumerate(ks) if k != 0] + [(0, 4, 0, v)]        # key 0 = a blank cell of the key range
                     res = p.eval(ov)
                     for j, (w, r) in enumerate(zip(WANT, res)):
                         exp = row[w]
@@ -111,7 +111,7 @@ def _lookup_job(recs):
 def gen_lookup(run):
     recs = []
     L = 4 if run.quick else 5
-    for kind in ('LOOKUP', 'TEXT'):
+    for kind in ('LOOKUP', 'LOOKUPB', 'TEXT'):
         r = run.tlc('Gen_C14', ['INIT Init', 'NEXT Next', f'CONSTANT Kind = "{kind}"', 'CONSTANT Keys = {20, 40, 60, 80}', f'CONSTANT L = {L}',
                                 'CONSTANT Vals = {10, 20, 30, 40, 50, 51, 60, 70, 79, 80, 90}'], workers=4, timeout=1800, tag='Gen_C14_' + kind)
         recs += r.records
@@ -334,7 +334,7 @@ def check(run):
                 '(thorough: all 16384 columns); COLUMN() in own cell; random longer key columns judged by Trace_C14. One evaluation = one formula result.')
     run.assumptions += ['approximate matching on keys that are not ascending, MATCH type -1, text keys differing only in case, INDEX with a zero index, '
                         'VLOOKUP result column beyond the table: out of scope', 'INDEX with a negative index: any error value accepted']
-    inv = ['ExactIsFirst', 'ExactLastIsLast', 'ApproxIsMaxLE', 'ApproxAboveAll', 'ApproxExtendsExact', 'IndexMatchPartner', 'ColBijective', 'AddressAnchors']
+    inv = ['ExactIsFirst', 'ExactLastIsLast', 'ApproxIsMaxLE', 'ApproxAboveAll', 'ApproxExtendsExact', 'BlanksAreNotKeys', 'IndexMatchPartner', 'ColBijective', 'AddressAnchors']
     L = 4 if run.quick else 5
     run.tlc('MC_XlLookup', ['INIT Init', 'NEXT Next', 'CONSTANT Keys = {20, 40, 60, 80}', f'CONSTANT L = {L}', 'CONSTANT Vals = {10, 20, 30, 40, 50, 51, 60, 70, 79, 80, 90}']
             + ['INVARIANT ' + i for i in inv], workers=8, timeout=1800)
